@@ -71,8 +71,9 @@ func (l *LamportClock) Compare(b iface.IPFSLogLamportClock) int {
 
 	// The subtraction wraps around when the times have opposite signs and are
 	// far apart (times decoded from foreign blocks may be negative): keep the
-	// sign of the comparison in that case (with a value that can be negated)
-	if l.Time < bTime && dist >= 0 {
+	// sign of the comparison in that case (with a value that can be negated,
+	// which the most negative integer cannot)
+	if l.Time < bTime && (dist >= 0 || dist == math.MinInt) {
 		return -math.MaxInt
 	}
 
